@@ -845,8 +845,10 @@ inline void format0(int data, char *to, int width)
 inline size_t parse_decimal(const char *begin, size_t len, int &to)
 {
 	const char *bsv(begin);
+	unsigned uto(static_cast<unsigned>(to));	// accumulate unsigned: text that is not all digits must not shift a negative value or overflow
 	while(len-- > 0)
-		to = (to << 3) + (to << 1) + (*begin++ - '0');
+		uto = (uto << 3) + (uto << 1) + static_cast<unsigned>(*begin++ - '0');
+	to = static_cast<int>(uto);
 	return begin - bsv;
 }
 
